@@ -339,4 +339,17 @@ def check(case, ctx):
                 want = [ev[c] for c in coords]
                 if len(got) != len(want) or not all(model.lab_eq(py(g), py(w)) for g, w in zip(got, want)):
                     ctx.v(ID, "readback", "%s: read-back %s, expected %s" % (label, codec.short(got, 120), codec.short([py(w) for w in want], 120)))
+    elif spelling == 'ndmask':
+        # "changes exactly the cells that the same index would read": a[ndmask] reads the cells in row-major order
+        mk2 = np.array(case["mask"], copy=True)
+        rb, rexc = ctx.call("read-back a[ndmask] after " + label, lambda: tgt[mk2], operands=(tgt,))
+        if rexc is not None:
+            ctx.v(ID, "readback-raised", "read-back a[ndmask] after %s raised %s: %s" % (label, type(rexc).__name__, str(rexc)[:100]))
+        else:
+            ctx.outcomes['readback-compared'] += 1
+            ctx.outcomes['ndmask-readback'] += 1
+            got = np.asarray(rb.values if common.is_da(rb) else rb, dtype=object).ravel().tolist()
+            want = [ev[c] for c in coords]
+            if len(got) != len(want) or not all(model.lab_eq(py(g), py(w)) for g, w in zip(got, want)):
+                ctx.v(ID, "readback", "%s: a[ndmask] reads %s, expected %s" % (label, codec.short(got, 120), codec.short([py(w) for w in want], 120)))
     return klass
